@@ -107,3 +107,20 @@ Theorem C06_checker_verdict_and_output_independent_of_map_order_depth1 : forall 
   check_program intern f P = COk A -> check_program intern (2 * f) Q = COk A.
 Proof. exact check_perm_depth1. Qed.
 Print Assumptions C06_checker_verdict_and_output_independent_of_map_order_depth1.
+
+(* ... and for ARBITRARY call depth (Check/InferPerm5.v): if the syntactic call graph passes the
+   computable acyclicity test [call_graph_acyclic] (accepted programs have no reachable cycle - the
+   checker rejects recursion -; deriving the test from acceptance is not done, it is a Boolean the
+   extracted checker can evaluate), acceptance in one order with fuel f implies acceptance in every
+   other order with fuel (1 + number of functions) * f, with the SAME exported typed program. *)
+From GV Require Import Check.InferPerm5.
+
+Theorem C06_checker_verdict_and_output_independent_of_map_order : forall intern P Q f A,
+  (forall a b, intern a = intern b -> a = b) ->
+  up_consts Q = up_consts P -> up_main Q = up_main P ->
+  Permutation (up_fns P) (up_fns Q) -> Permutation (up_structs P) (up_structs Q) -> Permutation (up_enums P) (up_enums Q) ->
+  NoDup (map uf_name (up_fns P)) -> NoDup (map us_name (up_structs P)) -> NoDup (map ue_name (up_enums P)) ->
+  call_graph_acyclic P = true ->
+  check_program intern f P = COk A -> check_program intern (S (length (up_fns P)) * f) Q = COk A.
+Proof. exact check_perm_final. Qed.
+Print Assumptions C06_checker_verdict_and_output_independent_of_map_order.
